@@ -1,0 +1,12 @@
+//! C29 hooks: the private edge list of a `QubitGraph` and the raw `path_fold` result.
+use crate::program::analysis::QubitGraph;
+
+/// `(node count, edges in insertion order)` of the graph.
+pub fn edges(graph: &QubitGraph<'_>) -> (usize, Vec<(usize, usize)>) {
+    graph.verif_edges()
+}
+
+/// What `path_fold` returns for the closure used by `gate_depth(k)`, in its own order.
+pub fn path_counts(graph: &QubitGraph<'_>, k: usize) -> Vec<usize> {
+    graph.verif_path_counts(k)
+}
